@@ -67,4 +67,5 @@ func (p *Pool) Put(x interface{}) {
 	p.sync(s)
 	s.Tick()
 	p.items = append(p.items, poolItem{x, s.Release(nil)})
+	s.AfterRelease() // the object is visible to others from here on
 }
